@@ -585,7 +585,7 @@ pub fn replay(ops_path: &str, impl_path: &str) -> Vec<String> {
 /// expose exactly the logical content that was laid out; then a short history runs on the opened file
 /// (results against the abstract model, reopen oracle at the end).  Images go to `<outdir>/L<k>.cfb`
 /// (for the Raw model and SpecCheck), the mutated ones to `<outdir>/L<k>_after.cfb`.
-pub fn layouts(seed: u64, count: u64, outdir: &str, big: bool, ops_path: Option<&str>, impl_path: Option<&str>) -> Outcome {
+pub fn layouts(seed: u64, count: u64, outdir: &str, big: bool, with_full_difat: bool, ops_path: Option<&str>, impl_path: Option<&str>) -> Outcome {
     let mut ops_out = String::new();
     let mut impl_out = String::new();
     use crate::layout::*;
@@ -598,7 +598,8 @@ pub fn layouts(seed: u64, count: u64, outdir: &str, big: bool, ops_path: Option<
         let mut cfg = LayoutCfg { v4: r.chance(1, 2), wrap_to_zero: r.chance(1, 3), free_gaps: r.chance(2, 3), extra_dir_sector: r.chance(1, 4), spare_fat: r.chance(1, 4), min_fat: 0 };
         // now and then a version-3 file whose DIFAT is exactly full (109 header slots + one DIFAT sector of 127): the
         // file is then grown until the library appends a FAT sector, which needs a second DIFAT sector
-        let full_difat = !big && k % 23 == 7;
+        // (only where asked for: the reader model needs minutes for the deviations of a 30 000-cell FAT)
+        let full_difat = with_full_difat && !big && k % 23 == 7;
         if full_difat {
             cfg = LayoutCfg { v4: false, wrap_to_zero: false, free_gaps: cfg.free_gaps, extra_dir_sector: cfg.extra_dir_sector, spare_fat: false, min_fat: 236 };
             *out.hist.entry("layout:full-difat-sector(236 FAT sectors)".to_string()).or_insert(0) += 1;
